@@ -1,7 +1,7 @@
-"""XINT (temporary id; part of C13) — the per-element terms of the post-processors' block integrals.
+"""XINT (extension of C13, run by props/c13.py through props/ext.py) — the per-element terms of the post-processors' block integrals.
 Models: coq/theories/IntegralsE.v / IntegralsH.v / IntegralsM.v (ElectrostaticsPostProcessor /
 HPProc / FPProc ::blockIntegral with getElementD, E(), AECF, Ctr, ElmArea, GetJA, PlnInt, AxiInt
-...), theorems: Properties_XINT.v.  Correspondence: generated problems of the three physics ->
+...), theorems: Properties_C13_integrals.v.  Correspondence: generated problems of the three physics ->
 real femmcli (mesh + solve) -> harness h_blockint (the REAL post-processor classes open the
 solution, select label subsets through the real selection code and evaluate every block integral)
 -> the float reading of the model must reproduce every integral and the per-element field values
